@@ -12,9 +12,10 @@ C41 line-protocol driver.
   sched <dual 0|1> <preP> <preQ> <step,step,…> => P=<entry>;Q=<entry>;closed=<conns>;Pc=<r>;Qc=<r>;Qd=<r>;Pd=<r>[;eP=<w>][;eQ=<w>]
       one interleaving, executed by the harness' simulator over the CURRENT rows. Steps: s|d|r + Pc|Qc|Qd|Pd
       (snapshot, decide, reap), eP|eQ (reap by the close-watcher of the pre-existing connection e), lP|lQ (a stale
-      reap: a second reapPeer for an older connection that died long ago). closed: lower case = closed by the
-      negotiation (or by a reap such a close caused), upper case = closed by a stale reap (or by a reap it
-      caused). eP/eQ (only for sides that cached e initially): watch = the watcher still waits, reaped.
+      reap: a second reapPeer for an older connection that died long ago), kE (the pre-existing connection e dies
+      for a reason outside the negotiation; its close-watchers become due). closed: lower case = closed by the
+      negotiation (or by a reap such a close caused), upper case = closed by the environment: a stale reap or the
+      death of e (or a reap it caused). eP/eQ (only for sides that cached e initially): watch = the watcher still waits, reaped.
       DIFF: differs from the Lean model run with the generated table. SPEC: the reported final state violates
       no-split-brain / reused-never-closed / cache-new-only-if-peer-does (decided from the reported state alone).
   live <trial> => <outcome>                                        real overlay.QUIC transports, simultaneous dials
@@ -50,6 +51,7 @@ def parseProc (s : String) : Option Proc :=
 def parseStep (s : String) : Option Step :=
   let k := (s.take 1).toString
   let rest := (s.drop 1).toString
+  if s = "kE" then some Step.kill else
   if k = "e" ∨ k = "l" then
     let x := if rest = "P" then some Side.P else if rest = "Q" then some Side.Q else none
     x.map fun x => if k = "e" then Step.reapE x else Step.late x
@@ -159,17 +161,17 @@ def drvStep (_ : Unit) (toks : List String) (rhs : String) : Unit × Verdict :=
   | ["sched", dual, pp, pq, steps] =>
     match parseEntry pp, parseEntry pq, (if steps = "-" then some [] else (steps.splitOn ",").mapM parseStep) with
     | some pp, some pq, some l =>
-      -- Reused-never-closed is judged unconditionally on the schedules without a stale reap. With a stale reap the
-      -- cross store of a simultaneous open (both peers stored their own fresh connection - the one failure mode of
-      -- this clause, Props `reused_never_closed_unless_cross`, reported as a known finding on the schedules without
-      -- stale reap) comes back in further shapes (the stale reap empties the caches before the dials start, or
-      -- evicts a stored connection between the two decisions of a side); it is exempted there exactly as in
-      -- the theorem.
-      let crossExempt := l.any fun e => match e with | .late _ => true | _ => false
+      -- Reused-never-closed is judged unconditionally on the schedules without an environment event. With a stale
+      -- reap or the death of the pre-existing connection the cross store of a simultaneous open (both peers stored
+      -- their own fresh connection - the one failure mode of this clause, Props `reused_never_closed_unless_cross`,
+      -- reported as a known finding on the schedules without environment event) comes back in further shapes (the
+      -- event empties the caches before the dials start, or a stale reap evicts a stored connection between the two
+      -- decisions of a side); it is exempted there exactly as in the theorem.
+      let crossExempt := l.any fun e => match e with | .late _ => true | .kill => pp.isSome || pq.isSome | _ => false
       match (if reportedFinal (dual = "1") rhs then specOf rhs crossExempt else none) with
       | some w => ((), .spec w)
       | none =>
-        let m := stStr (pp, pq) (run genTable (init (dual = "1") (pp, pq) (true, true)) l)
+        let m := stStr (pp, pq) (run genTable (init (dual = "1") (pp, pq) (true, true) true) l)
         if m = rhs then ((), .ok) else ((), .diff m)
     | _, _, _ => ((), .bad "sched args")
   | ["reap", ld] =>
